@@ -122,6 +122,20 @@ inline EP mutate(pbt::Ctx& c, const EP& original, const Gamma& G, std::string& o
         if (n->kids.size() >= 2 && n->kids[0]->id == TID::ID_LOCAL && n->kids[1]->id == TID::ID_LOCAL) { n->kids[1]->name = n->kids[0]->name; opName = "duplicate-binder-name"; return root->kids[0]; }
         break;
       }
+      case 10: {  // only on request (forceOp): one operand of a multi-operand node becomes the empty set - whose "any" type lets
+                  // checkers take shortcuts - and a sibling operand becomes an undeclared variable, which must still be reported
+        std::vector<Expr*> multi; for (auto* n : nodes) if (n->kids.size() >= 2 && (n->id == TID::FILTER || n->id == TID::NT_FUNC_CALL || n->id == TID::DECART || n->id == TID::NT_TUPLE || n->id == TID::NT_ENUMERATION || isSetBin(n->id) || n->id == TID::IN || n->id == TID::SUBSET || n->id == TID::EQUAL)) multi.push_back(n);
+        if (multi.empty()) break;
+        Expr* n = c.oneof(multi);
+        const size_t first = n->id == TID::NT_FUNC_CALL ? 1 : 0;  // child 0 of a call is the function name
+        if (n->kids.size() < first + 2) break;
+        const size_t last = n->kids.size() - 1;
+        size_t empty = c.chance(2, 3) ? last : first + static_cast<size_t>(c.ipick(0, static_cast<int>(last - first)));
+        size_t bad = first + static_cast<size_t>(c.ipick(0, static_cast<int>(last - first) - 1)); if (bad >= empty) ++bad;
+        n->kids[empty] = mk(TID::LIT_EMPTYSET);
+        n->kids[bad] = mkName(TID::ID_LOCAL, "q9");
+        opName = "empty-set-next-to-undeclared"; return root->kids[0];
+      }
       default: {  // replace a term by a copy of another term of the same tree (scrambles types and scopes)
         if (slots.size() < 2) break;
         const Slot a = c.oneof(slots), b = c.oneof(slots);
